@@ -285,7 +285,6 @@ func c14r4(r *R) {
 	c05r4(r)
 }
 
-
 func c14r5(r *R) {
 	pp := r.fn("pac", "parseProxy")
 	ps, complete := enumPaths(pp, 256, 1)
